@@ -20,6 +20,8 @@ struct Subject {
     sql: String,
     tables: Vec<&'static str>,
     strategy: &'static str,
+    /// how the tables are registered / named by the privacy unit ("by-path" or "by-name")
+    naming: &'static str,
     rewritten: Arc<Relation>,
     /// structural features of the ORIGINAL relation (features.rs)
     features: Vec<String>,
@@ -39,7 +41,9 @@ pub fn run(ctx: &Ctx) -> Report {
         return head;
     }
     let world = if ctx.tier == Tier::Quick { World::compact() } else { World::standard() };
-    let relations = world.relations();
+    let relations_by_path = world.relations();
+    let relations_by_name = world.relations_named();
+    let relations_qualified = world.relations_qualified();
     let mut subjects: Vec<Subject> = vec![];
     let step = ctx.tier.pick(4, 1);
     // hand-written E-sql (quick: every fourth) followed by the composed terms: quick = every unary constructor over
@@ -63,17 +67,30 @@ pub fn run(ctx: &Ctx) -> Report {
         if i % step != 0 && i < n_hand {
             continue;
         }
-        for (sname, strat) in [("hard", Strategy::Hard), ("soft", Strategy::Soft)] {
-            let id = format!("{} [{}]", g.sql, sname);
+        // tables registered under their path (privacy unit keyed by the path) and, for the hand-written queries and
+        // the depth-1 terms, under a Qrlew name that differs from the path (privacy unit keyed by the name)
+        for (sname, strat, naming) in [("hard", Strategy::Hard, "by-path"), ("soft", Strategy::Soft, "by-path"), ("hard", Strategy::Hard, "by-name"), ("hard", Strategy::Hard, "qualified")] {
+            // the naming variants: for the hand-written queries (quick: the sampled ones), thorough: also the depth-1 terms
+            if naming != "by-path" && !(i < n_hand || (ctx.tier == Tier::Thorough && g.subqueries.is_empty())) {
+                continue;
+            }
+            let id = if naming == "by-path" { format!("{} [{}]", g.sql, sname) } else { format!("{} [{} {}]", g.sql, sname, naming) };
             if !ctx.wants(&id) {
                 continue;
             }
+            let (relations, pu) = match naming {
+                "by-name" => (&relations_by_name, crate::c18::privacy_unit_named()),
+                "qualified" => (&relations_qualified, crate::c18::privacy_unit()),
+                _ => (&relations_by_path, crate::c18::privacy_unit()),
+            };
             let mut feats: Vec<String> = vec![];
+            let mut reads_protected = false;
             let r = guarded(|| -> Result<Relation, String> {
-                let rel = Relation::try_from(parse(&g.sql).map_err(|e| e.to_string())?.with(&relations)).map_err(|e| e.to_string())?;
+                let rel = Relation::try_from(parse(&g.sql).map_err(|e| e.to_string())?.with(relations)).map_err(|e| e.to_string())?;
                 feats = crate::features::features(&rel);
+                reads_protected = crate::features::reads_protected_table(&rel);
                 let out = rel
-                    .rewrite_as_privacy_unit_preserving(&relations, None, crate::c18::privacy_unit(), DpParameters::from_epsilon_delta(1.0, 1e-3), Some(strat))
+                    .rewrite_as_privacy_unit_preserving(relations, None, pu, DpParameters::from_epsilon_delta(1.0, 1e-3), Some(strat))
                     .map_err(|e| e.to_string())?;
                 Ok(out.relation().clone())
             });
@@ -86,7 +103,15 @@ pub fn run(ctx: &Ctx) -> Report {
                         for t in &g.tags {
                             head.reach("accepted_by_tag", t);
                         }
-                        subjects.push(Subject { sql: g.sql.clone(), tables: g.tables.clone(), strategy: sname, rewritten: Arc::new(rel), features: feats.clone() });
+                        subjects.push(Subject { sql: g.sql.clone(), tables: g.tables.clone(), strategy: sname, naming, rewritten: Arc::new(rel), features: feats.clone() });
+                    } else if reads_protected {
+                        // a privacy-unit-preserving rewriting of a query over protected tables whose result carries no
+                        // privacy unit: the protected rows are passed on untracked
+                        head.violation(
+                            format!("pup protected-rows-untracked strategy={sname}"),
+                            &id,
+                            json!({"query": g.sql, "strategy": sname, "returned_schema": rel.schema().iter().map(|f| f.name().to_string()).collect::<Vec<_>>(), "note": "rewrite_as_privacy_unit_preserving returned Ok for a query that reads a protected table, and the result has no _PRIVACY_UNIT_ column"}),
+                        );
                     } else {
                         head.add_count("accepted_as_public(no unit column)", 1);
                     }
@@ -127,7 +152,7 @@ pub fn run(ctx: &Ctx) -> Report {
             e.conn.set_prepared_statement_cache_capacity(512);
             r.add_count("databases", dbs.len() as u64);
             for s in subs.iter() {
-                let case_id = format!("{} [{}]", s.sql, s.strategy);
+                let case_id = if s.naming == "by-path" { format!("{} [{}]", s.sql, s.strategy) } else { format!("{} [{} {}]", s.sql, s.strategy, s.naming) };
                 let plan = match e.plan(&s.rewritten) {
                     Ok(p) => p,
                     Err(err) => {
